@@ -48,7 +48,7 @@ inductive Tok where | F | N | U | A | V | X
 inductive RKind where | hex | bech | bad
   deriving DecidableEq, Repr
 
-inductive Memo where | none | junk | callok | callrev
+inductive Memo where | none | junk | callok | callrev | callpay
   deriving DecidableEq, Repr
 
 /-- bank denominations -/
@@ -131,6 +131,9 @@ def chanSelOf (e : String) : ChanSel :=
   else if e == "packet.DestinationChannel" || e == "packet.GetDestChannel()" then .dst
   else .other
 
+/-- substring test -/
+def mentions (s sub : String) : Bool := (s.splitOn sub).length > 1
+
 def seqExprOk (e : String) : Bool := e == "packet.Sequence" || e == "packet.GetSequence()"
 
 def ChanSel.pick : ChanSel → Ch → Ch → Option Ch
@@ -172,6 +175,11 @@ structure Cfg where
   refundToSender : Bool      -- IbcRefund's ConvertCoin credits the packet's sender
   sendKeyOwn : Bool          -- ibcTransfer records (channel it transfers on, sequence of the transfer response)
   aliasFirst : Bool          -- IBCCoinToBaseCoin resolves a registered alias before asking ManyToOne
+  memoHashOnly : Bool        -- IntermediateSender's body: no return in front of the hash, returns BytesToAddress(hash)
+  memoPassHex : Bool         -- … an early return hands a hex sender string through as the EVM sender
+  memoPassBech : Bool        -- … an early return hands a bech32 sender string through
+  refundErrPropagates : Bool -- every caller on the refund path returns its callee's error to IBC core
+  refundCached : Bool        -- refundPacketTokenHook runs IBCCoinRefund on a CacheContext
   deriving DecidableEq, Repr
 
 def genCfg : Cfg where
@@ -206,6 +214,13 @@ def genCfg : Cfg where
     Gen.C19.sendKeySeqExpr == Gen.C19.sendResponseVar ++ ".Sequence" &&
     Gen.C19.relationKeyFmtArgs == ["#0", "#1"]
   aliasFirst := Gen.C19.ibcCoinToBaseCalls.head? == some "GetBaseDenom"
+  memoHashOnly := Gen.C19.intermediateSenderEarlyReturns.isEmpty && Gen.C19.intermediateSenderHashVar != "" &&
+    Gen.C19.intermediateSenderReturn == "common.BytesToAddress(" ++ Gen.C19.intermediateSenderHashVar ++ ")"
+  memoPassHex := Gen.C19.intermediateSenderEarlyReturns.any fun p =>
+    mentions p.1 "EthereumAddress" || mentions p.1 "IsHexAddress" || mentions p.2 "HexToAddress"
+  memoPassBech := Gen.C19.intermediateSenderEarlyReturns.any fun p => mentions p.1 "Bech32" || mentions p.2 "Bech32"
+  refundErrPropagates := Gen.C19.refundErrorChain.all fun p => p.2 == "return" || p.2 == "checked"
+  refundCached := Gen.C19.refundHookCtx.startsWith "cache"
 
 /-- reference configuration with the success-ack delete prefix as an explicit parameter (tree independent):
 `refCfg 7` is the pinned code, `refCfg 4` the repaired code -/
@@ -237,6 +252,11 @@ def refCfg (ackDel : Nat) : Cfg where
   refundToSender := true
   sendKeyOwn := true
   aliasFirst := false
+  memoHashOnly := true
+  memoPassHex := false
+  memoPassBech := false
+  refundErrPropagates := true
+  refundCached := false
 
 /-- success ack removes a relation iff AfterIBCAckSuccess is called and deletes under the prefix the record was written -/
 def Cfg.ackOkRemoves (cfg : Cfg) : Bool := cfg.ackOkCallsAfter && cfg.ackDelPrefix == cfg.setPrefix
@@ -275,11 +295,20 @@ structure SentRec where
 def RefundRec.key (r : RefundRec) : Ch × Seq := (r.ch, r.seq)
 def SentRec.key (e : SentRec) : Ch × Seq := (e.ch, e.seq)
 
+/-- who a memo call runs as: the account derived from (channel end, sender string) — `ch = none` when the channel
+expression is not recognised —, or a LOCAL account whose address was handed through -/
+inductive CallerId where
+  | derived (ch : Option Ch) (snd : Nat)
+  | loc (a : Addr)
+  deriving DecidableEq, Repr
+
 structure Bal where
   bank : Store (Addr × Denom) := []
   erc : Store (Addr × ETok) := []
   marker : Nat := 0                          -- number of successful memo contract calls
-  caller : Option (Option Ch × Nat) := none  -- pre-image of the last memo-call sender: (channel, original sender)
+  caller : Option CallerId := none           -- who the last memo contract call ran as
+  off : List ETok := []                      -- token pairs whose conversion is toggled off (governance)
+  paused : Bool := false                     -- erc20 module disabled (`EnableErc20 = false`)
   deriving DecidableEq, Repr
 
 structure Ctl where
@@ -316,6 +345,8 @@ inductive Op where
   | chan (l r : Ch)
   | vmeta (l : Ch)
   | migrate                                      -- the transfer module's metadata migration: every stored trace
+  | toggle (t : Tok) (l : Ch)                    -- governance toggles the conversion of the token's pair
+  | pause                                        -- governance flips `EnableErc20`
   | seqset (l : Ch) (n : Nat)                    -- the next send sequence of channel `l` jumps forward to `n`
   | fund (a : Addr) (t : Tok) (l : Ch) (amt : Nat)
   | recv (l : Ch) (t : Tok) (k : RKind) (to : Addr) (amt : Nat) (m : Memo) (snd : Nat)
@@ -327,7 +358,7 @@ inductive Op where
 
 inductive Out where
   | ok
-  | recv (ackOk : Bool) (bk e esc tm sup m : Nat) (cs : Option (Option Ch × Nat))
+  | recv (ackOk : Bool) (bk e esc tm sup m : Nat) (cs : Option CallerId)
   | sent (seq e bk esc tm : Nat) (rel : List (Ch × Seq))
   | fail
   | noop (rel : List (Ch × Seq))
@@ -365,12 +396,13 @@ def Bal.mint (b : Bal) (a : Addr) (d : Denom) (amt : Nat) : Bal :=
   { b with bank := sadd b.bank (a, d) amt }
 
 /-- erc20 `ConvertCoin` (module-owned pair): escrow the coin in the erc20 module account, mint the ERC-20 to `receiver`;
-fails when the denomination has no token pair -/
+fails when the denomination has no token pair, when the pair is toggled off or when the module is disabled -/
 def convertCoin (b : Bal) (d : Denom) (holder receiver : Addr) (amt : Nat) : Option Bal :=
   match pairOf d with
   | none => none
   | some t =>
-    if sget b.bank (holder, d) < amt then none
+    if b.paused || b.off.contains t then none
+    else if sget b.bank (holder, d) < amt then none
     else some { b with bank := sadd (ssub b.bank (holder, d) amt) (erc20Mod, d) amt,
                        erc := sadd b.erc (receiver, t) amt }
 
@@ -422,14 +454,40 @@ def convStep (cfg : Cfg) (vmeta : List Ch) (b : Bal) (l : Ch) (t : Tok) (k : RKi
         | some b2 => (b2, true)
   else (b, true)
 
-/-- (3) the memo block: junk is ignored, a call runs as the derived sender -/
+/-- what a packet's `sender` string is: any string that is not an address of this chain (`remote`), or the hex /
+bech32 form of the address of the LOCAL account `a`.  Encoding in op lines: `10000 + a` hex, `20000 + a` bech32 -/
+inductive Snd where | remote (k : Nat) | hexOf (a : Addr) | bechOf (a : Addr)
+  deriving DecidableEq, Repr
+
+def sndOf (n : Nat) : Snd :=
+  if 20000 ≤ n then .bechOf (n - 20000) else if 10000 ≤ n then .hexOf (n - 10000) else .remote n
+
+/-- `IntermediateSender` as the generated body says: hashed (derived account) unless an early return hands the address
+named by the sender string through -/
+def memoCaller (cfg : Cfg) (src dst : Ch) (snd : Nat) : CallerId :=
+  let derived := CallerId.derived (cfg.memoChan.pick src dst) (if cfg.memoSender then snd else 0)
+  match sndOf snd with
+  | .hexOf a => if cfg.memoPassHex then .loc a else derived
+  | .bechOf a => if cfg.memoPassBech then .loc a else derived
+  | .remote _ => derived
+
+/-- where a paying memo call sends its value, and how much -/
+def sink : Addr := 4000
+def payAmt : Nat := 5
+
+/-- (3) the memo block: junk is ignored; `callok` calls a contract that records its caller; `callpay` is a plain value
+transfer of `payAmt` FX from the caller to `sink` (a derived account holds nothing — nobody funds an address nobody can
+predict —, so it fails unless the caller is a funded local account) -/
 def memoStep (cfg : Cfg) (b : Bal) (src dst : Ch) (m : Memo) (snd : Nat) : Bal × Bool :=
   match m with
   | .none => (b, true)
   | .junk => (b, true)
-  | .callok => ({ b with marker := b.marker + 1,
-                         caller := some (cfg.memoChan.pick src dst, if cfg.memoSender then snd else 0) }, true)
+  | .callok => ({ b with marker := b.marker + 1, caller := some (memoCaller cfg src dst snd) }, true)
   | .callrev => (b, false)
+  | .callpay =>
+    match memoCaller cfg src dst snd with
+    | .loc a => if sget b.bank (a, Denom.fx) < payAmt then (b, false) else (b.move .fx a sink payAmt, true)
+    | .derived _ _ => (b, false)
 
 /-- the middleware keeper hook; returns the writes made so far and whether it succeeded.  `src` = the counterparty's
 channel id, `l` = ours -/
@@ -543,7 +601,13 @@ def refundState (cfg : Cfg) (s : State) (l : Ch) (seq : Seq) (p : Pkt) (refunds 
   | some b1 =>
     if refunds then
       match refundHook cfg s.ctl.vmeta b1 l p (refundForm cfg s.ctl (l, seq) p) with
-      | none => none
+      | none =>
+        if cfg.refundErrPropagates then none
+        else
+          -- the hook's error is swallowed (its writes dropped): IBC core sees a success, the packet is finished, the
+          -- sender keeps what the transfer application handed back, the record stays
+          some { bal := b1, ctl := { s.ctl with commits := dropCommit s.ctl.commits (l, seq),
+                                                refundLog := ⟨l, seq, p.sender, p.tok, p.amt, false⟩ :: s.ctl.refundLog } }
       | some b2 => some { bal := b2, ctl := refundCtl cfg s.ctl (l, seq) p }
     else some { bal := b1, ctl := { s.ctl with commits := dropCommit s.ctl.commits (l, seq) } }
 
@@ -594,10 +658,17 @@ def stepWith (cfg : Cfg) (s : State) : Op → State × Out
   | .chan l r => ({ s with ctl := { s.ctl with cp := (l, r) :: s.ctl.cp.filter (fun p => p.1 != l) } }, .ok)
   | .vmeta l => ({ s with ctl := { s.ctl with vmeta := l :: s.ctl.vmeta } }, .ok)
   | .migrate => ({ s with ctl := { s.ctl with vmeta := s.ctl.cp.map (·.1) ++ s.ctl.vmeta } }, .ok)
+  | .toggle t l =>
+    match ercTokOf t l with
+    | none => (s, .badOp)
+    | some et =>
+      ({ s with bal := { s.bal with off := if s.bal.off.contains et then s.bal.off.filter (· != et) else et :: s.bal.off } }, .ok)
+  | .pause => ({ s with bal := { s.bal with paused := !s.bal.paused } }, .ok)
   | .seqset l n =>
     if sget s.ctl.next l + 1 < n then ({ s with ctl := { s.ctl with next := sset s.ctl.next l (n - 1) } }, .ok) else (s, .ok)
   | .fund a t l amt =>
-    if t = .V ∨ t = .X then (s, .badOp) else ({ s with bal := fundBal s.bal a t l amt }, .ok)
+    if t = .V ∨ t = .X ∨ (t = .A ∧ (s.bal.paused || s.bal.off.contains ETok.base) = true) then (s, .badOp)
+    else ({ s with bal := fundBal s.bal a t l amt }, .ok)
   | .recv l t k to amt m snd =>
     let r := recvBal cfg s.ctl.vmeta s.bal (cpOf s.ctl l) l t k to amt m snd
     let s' : State := if r.2 then { s with bal := r.1 } else s      -- error ack: IBC core discards the cache
@@ -622,7 +693,8 @@ def parseTok : String → Option Tok
   | "F" => some .F | "N" => some .N | "U" => some .U | "A" => some .A | "V" => some .V | "X" => some .X | _ => none
 
 def parseMemo : String → Option Memo
-  | "none" => some .none | "junk" => some .junk | "callok" => some .callok | "callrev" => some .callrev | _ => none
+  | "none" => some .none | "junk" => some .junk | "callok" => some .callok | "callrev" => some .callrev
+  | "callpay" => some .callpay | _ => none
 
 def parseKind : String → Option RKind
   | "hex" => some .hex | "bech" => some .bech | "bad" => some .bad | _ => none
@@ -635,6 +707,11 @@ def parseOp (line : String) : Op :=
     | some l, some r => .chan l r
     | _, _ => .bad
   | ["migrate"] => .migrate
+  | ["pause"] => .pause
+  | ["toggle", t, l] =>
+    match parseTok t, l.toNat? with
+    | some t, some l => .toggle t l
+    | _, _ => .bad
   | ["meta", l] =>
     match l.toNat? with
     | some l => .vmeta l
@@ -676,10 +753,11 @@ def showRel (rel : List (Ch × Seq)) : String :=
   if rel.isEmpty then "-" else
   ",".intercalate ((rel.mergeSort relLe).map fun p => toString p.1 ++ "/" ++ toString p.2)
 
-def showCaller : Option (Option Ch × Nat) → String
+def showCaller : Option CallerId → String
   | none => "-"
-  | some (some c, snd) => toString c ++ "/" ++ toString snd
-  | some (none, _) => "?"
+  | some (.derived (some c) snd) => toString c ++ "/" ++ toString snd
+  | some (.derived none _) => "?"
+  | some (.loc a) => "L" ++ toString a
 
 def render : Out → String
   | .ok => "ok"
@@ -751,6 +829,18 @@ def intermediateSender {α : Type} (H : List Char → List Char → α) (port ch
   | [typ, key] => H typ key
   | _ => H [] []
 
+/-- `IntermediateSender` with its WHOLE generated body.  `P` parses a sender string that is an address of this chain
+(hex or bech32 form) into that address.  When the body is "hash, nothing else" (`memoHashOnly`: no return in front of
+the hash and the final return is `BytesToAddress(<hash>)`) the result is the hash; a body with an early return hands the
+address named by the sender string through. -/
+def intermediateSenderBody {α : Type} (H : List Char → List Char → α) (P : List Char → Option α)
+    (port channel sender : List Char) : α :=
+  if genCfg.memoHashOnly then intermediateSender H port channel sender
+  else
+    match P sender with
+    | some a => a
+    | none => intermediateSender H port channel sender
+
 /-- an inbound packet as far as the memo-call sender depends on it -/
 structure InPkt where
   srcPort : List Char
@@ -769,9 +859,9 @@ def inPktVal (p : InPkt) (e : String) : List Char :=
   else []
 
 /-- the sender a memo call of packet `p` runs as: `IntermediateSender` applied to the generated argument flow -/
-def memoCallSender {α : Type} (H : List Char → List Char → α) (p : InPkt) : α :=
+def memoCallSender {α : Type} (H : List Char → List Char → α) (P : List Char → Option α) (p : InPkt) : α :=
   match Gen.C19.memoSenderArgs.map (inPktVal p) with
-  | [port, channel, sender] => intermediateSender H port channel sender
+  | [port, channel, sender] => intermediateSenderBody H P port channel sender
   | _ => H [] []
 
 end FxVerif.Model.C19
